@@ -281,7 +281,7 @@ def cases_v(batches):
 
 
 def in_fragment(t, v):
-  return not G.unsupported_heads(t) and G.n_slices(v) < VIEW_LIMIT
+  return not G.unsupported_heads(t) and G.n_slices(v) < VIEW_LIMIT and not G.refilter_shape(v)
 
 
 # ---------------------------------------------------------------------------------------------------
@@ -307,6 +307,8 @@ def fingerprints(t, v, site, impl_err, hier):
   if G.n_slices(v) >= VIEW_LIMIT and not impl_err:
     return ["view-limit-1024"]
   F = G.explain(t, v, site, impl_err, hier)
+  if F is None and not impl_err and site != "arg" and G.refilter_shape(v) and G.diagnose_refilter(hier, t, v, site):
+    return ["hascombination-drops-bad-view"]
   if F is None:
     return None
   return [("noniterable-str:" + G.noniter_abc(t)) if f == "noniterable-str" else f for f in F]
@@ -394,6 +396,8 @@ def run(res):
       "abs (the abstract value built for a literal expression) is modelled after convert.py/vm.py and checked "
       "only by correspondence and by the reveal_type sample",
       "cfg_utils.DEEP_VARIABLE_LIMIT (1024 views) is not modelled; pairs at or above it are outside the fragment",
+      "set displays with two elements containing tuple(...)/frozenset(...) call results are outside the Coq "
+      "fragment (the CFG solver's HasCombination answer used by compute_one_match's re-filter is not modelled)",
       "formals Collection[...]/MutableMapping[...] (reached through _match_against_protocol with signature "
       "matching over type variables) are outside the Coq fragment: oracle differential only",
       "return types of un-annotated lambdas are not part of the oracle (callables are compared by arity)",
@@ -587,7 +591,10 @@ def run(res):
                 except Exception:   # pylint: disable=broad-except
                   return False
               t2, v2 = shrink(t, v, s, hier, still_bad)
-              res.violation("unexplained:%s:%s:%s" % (s, "false-error" if e else "missed", G.render_ty(t2)[:60]),
+              ufp = "unexplained:%s:%s:%s" % (s, "false-error" if e else "missed", G.render_ty(t2)[:60])
+              while ufp in res.known:      # an unexplained disagreement can never be silenced by a listed entry
+                ufp += ":unlisted"
+              res.violation(ufp,
                             "%s at %s site: T=%s V=%s" % ("error on a conforming value" if e else
                                                           "missed violation", s, G.render_ty(t2), G.render_val(v2)),
                             {"hier": hier.to_json(), "ty": t2, "val": v2, "site": s,
